@@ -52,6 +52,16 @@ impl Monitor for Mon {
             }
         }
         out.count("invariant_checks");
+        // bookkeeping only: a stored direction that contradicts the sign of the size (no statement talks about it,
+        // but such a record makes the next close trade the wrong way; see F14)
+        for pv in &s.post.pos {
+            for p in pv.iter().flatten() {
+                let long = p.direction == margined_perp::margined_vamm::Direction::AddToAmm;
+                if !p.size.is_zero() && long == p.size.is_negative() {
+                    out.count("direction_contradicts_size_sign");
+                }
+            }
+        }
         if matches!(
             s.effect,
             Effect::Reversed | Effect::PartialClosed | Effect::LiqPartial | Effect::LiqFull
